@@ -45,6 +45,7 @@ var (
 	hints    = flag.String("hints", "", "unused (accepted for ./check)")
 	only     = flag.String("only", "", "comma-separated case families (development aid)")
 	verbose  = flag.Bool("v", false, "print every failing case")
+	corpus   = flag.String("corpus", "/verif/corpus/C11/witnesses.txt", "hand-picked documents (witnesses of repaired or listed defects, W3C test 0226), run first")
 	shrinkN  = flag.Int("shrink", 3, "shrink the first N disagreements of the soup families to small witnesses")
 )
 
@@ -276,6 +277,7 @@ type harness struct {
 	fam   map[string]bool
 	// how many failures were shrunk so far
 	shrunk int
+	quiet  bool
 }
 
 func (h *harness) want(f string) bool { return len(h.fam) == 0 || h.fam[f] }
@@ -1023,6 +1025,9 @@ func main() {
 	if *replay != "" {
 		h.replayFile(*replay)
 	} else {
+		h.quiet = true
+		h.replayFile(*corpus)
+		h.quiet = false
 		n := 5000
 		if *tier == "thorough" {
 			n = 200000
